@@ -8,6 +8,7 @@ import Gocc.Spec.Cfg
 import Gocc.Model.Validate
 import Gocc.Proofs.Validate
 import Gocc.Gen.Frontend
+import Gocc.Model.ValidateC
 /- Grammar-level ops of the model driver: decode a grammar line, run the generator models,
    print tables, scan and parse with them. -/
 namespace Gocc.Driver
@@ -377,10 +378,18 @@ def opC05 (a : Art) : String :=
 def opValidate (a : Art) : String :=
   match a.lr with
   | some (.ok r) =>
-    let G := ngrammarOf (augment a.g.syn) r.tables.terminals r.tables.nts
-    let anyRec := r.tables.canRecover.any id
+    let T := r.tables
+    let G := ngrammarOf (augment a.g.syn) T.terminals T.nts
+    let anyRec := T.canRecover.any id
     let c := certOf r.states
-    s!"safe={if safe G r.tables c && safeEnds r.tables c then 1 else 0} recover={if anyRec then 1 else 0}"
+    let tIdx (s : String) : Nat := (T.terminals.idxOf? s).getD 0
+    let cla : CertLA := r.states.map fun st => (st.items.map fun i => (i.p, i.d, tIdx i.la)).eraseDups
+    let fc : FirstCert :=
+      { nullable := (List.range T.nts.length).filter fun k => (r.ctx.fs.get T.nts[k]!).contains "empty"
+        first := (List.range T.nts.length).flatMap fun k =>
+          ((r.ctx.fs.get T.nts[k]!).filter (· != "empty")).map fun t => (k, tIdx t) }
+    let b (x : Bool) : Nat := if x then 1 else 0
+    s!"safe={b (safe G T c && safeEnds T c)} complete={b (firstOk G fc && complete G T fc cla)} acts={b (kindsTotal T)} recover={b anyRec}"
   | some (.error _) => "panic"
   | none => "nosyntax"
 
